@@ -64,7 +64,7 @@ def pair_options(nout_src):
     return opts
 
 
-def build_job(ch, n, multi, gpu_possible, fixed_edges=None, with_ext=True):
+def build_job(ch, n, multi, gpu_possible, fixed_edges=None, with_ext=True, ext_sinks=False):
     """Returns (JobInstance, spec) -- spec is the plain description used by the sequential oracle."""
     spec = {"tasks": [], "edges": [], "ext": []}
     for j in range(n):
@@ -88,6 +88,16 @@ def build_job(ch, n, multi, gpu_possible, fixed_edges=None, with_ext=True):
         for o in out_names(nout):
             if with_ext and ch.flag(f"ext{j}_{o}"):
                 spec["ext"].append((j, o))
+    if ext_sinks:
+        consumed = {(i, o) for t in spec["tasks"] for (i, o, _, _) in t["ins"]}
+        for j, t in enumerate(spec["tasks"]):
+            for o in out_names(t["nout"]):
+                if (j, o) not in consumed and ch.flag(f"extsink{j}"):
+                    spec["ext"].append((j, o))
+    if False:
+        for o in []:
+            if False:
+                pass
     tasks, edges = {}, []
     for j, t in enumerate(spec["tasks"]):
         tid = f"t{j}"
@@ -146,7 +156,7 @@ def run_controller(ch, params, monitors, fail_point=False):
     gpu_possible = any(g for h in hosts for g in h)
     fixed = {tuple(map(int, k.split("-"))): v for k, v in params.get("fixed", {}).items()}
     with ch.untraced():
-        job, spec = build_job(ch, n, multi, gpu_possible, fixed)
+        job, spec = build_job(ch, n, multi, gpu_possible, fixed, with_ext=not params.get("family"), ext_sinks=bool(params.get("family")))
         sim = sim_cluster.SimCluster(job, hosts, ch, K, monitors, ch.untraced)
         if fail_point:
             sim.fail_at = ch.pick(6, "fail_at")
@@ -176,6 +186,22 @@ def run_controller(ch, params, monitors, fail_point=False):
         return job, spec, sim, state, crashed, oracle
 
 
+def family_shards(tier):
+    """Disjoint chains: c components of length L against fewer / as many / more hosts (component migration)."""
+    out = []
+    fams = [(2, 2), (3, 1), (3, 2), (2, 3)] if tier == "quick" else [(2, 2), (3, 1), (3, 2), (2, 3), (4, 1), (3, 3), (4, 2)]
+    for (c, L) in fams:
+        n = c * L
+        fixed = {}
+        for i in range(n):
+            for j in range(i + 1, n):
+                # task index = comp * L + position ; edge between consecutive positions of the same chain
+                fixed[f"{i}-{j}"] = 1 if (i // L == j // L and j == i + 1) else 0
+        for hosts in (["1x1", "2x1", "3x1"] if tier == "quick" else ["1x1", "2x1", "3x1", "1x2", "2x2"]):
+            out.append({"n": n, "multi": [0] * n, "hosts": hosts, "K": 3 if tier == "quick" else 5, "fixed": fixed, "family": f"{c} chains of {L}"})
+    return out
+
+
 class Ctrl(Harness):
     engine = "E1-crosshair"
     rule = ("one path = (DAG edges, requested outputs, gpu needs, first K scheduling decisions); non-trivial = >=2 tasks and >=1 edge; "
@@ -201,7 +227,8 @@ class Ctrl(Harness):
             for hosts, multi, K in [("2x1", [0, 0, 0], 4), ("1x2", [0, 0, 0], 3), ("2x2", [0, 0, 0], 3), ("2x1g", [0, 0, 0], 2), ("2x1", [1, 0, 0], 3)]:
                 for f01 in range(len(pair_options(2 if multi[0] else 1))):
                     out.append({"n": 3, "multi": multi, "hosts": hosts, "K": K, "fixed": {"0-1": f01}})
-        else:
+        out += family_shards(tier)
+        if tier == "thorough":
             K = 8
             for hosts in HOST_SHAPES:
                 for n in (0, 1, 2):
